@@ -17,8 +17,10 @@ LEVEL_NOTE = ("Trusted: Lean kernel; the abstract HDF5 store of lean/NixModel/St
 ASSUMPTIONS = []
 
 def stale_route(w, rng):
-    """an entity fetched THROUGH a holder (tag reference, attached source, group member), the holder's link removed again: the
-    handle's remembered route is gone while the entity lives on; it is then asked whether it is valid / still in its block"""
+    """an entity fetched THROUGH a holder (tag reference, attached source, group member), and the holder's link removed again: the
+    handle's remembered route is gone while the entity lives on; it is then asked whether it is valid / still in its block.
+    Half of the time the link is removed through ANOTHER route to the holder (the holder itself fetched through a tag or a group):
+    then HDF5 does not notice that the name it remembers for the first handle is stale."""
     for rel, holders, kind in (('src', ['A', 'T', 'G'], 'O'), ('ref', ['T', 'M'], 'A'), ('mA', ['G'], 'A'), ('mT', ['G'], 'T')):
         h = w.pick(holders)
         if not h or rng.random() < 0.5: continue
@@ -27,10 +29,23 @@ def stale_route(w, rng):
         slot = w.fresh()
         w.emit('link %s %s handle %s' % (rel, h.slot, x.slot))
         w.emit('getlinkh %s %s %s idof %s' % (slot, rel, h.slot, x.slot))
-        w.emit('unlink %s %s handle %s' % (rel, h.slot, slot))
+        via = h.slot
+        if rng.random() < 0.6:
+            # a second route to the holder
+            if h.kind == 'A':
+                t = w.pick(['T', 'M'], block=h.block); r2 = 'ref'
+            elif h.kind in ('T', 'M'):
+                t = w.pick('G', block=h.block); r2 = 'mT' if h.kind == 'T' else 'mM'
+            else:
+                t = None
+            if t:
+                via = w.fresh()
+                w.emit('link %s %s handle %s' % (r2, t.slot, h.slot))
+                w.emit('getlinkh %s %s %s idof %s' % (via, r2, t.slot, h.slot))
+        w.emit('unlink %s %s handle %s' % (rel, via, slot))
         w.emit('valid %s' % slot); w.emit('valid %s' % slot)       # through the handle that came by the vanished route, and through its twin
         if x.parent == x.block:
-            w.emit('has %s %s handle %s' % (kind, x.block, slot))
+            w.emit('has %s %s handle %s' % (kind, x.block, slot)); w.emit('has %s %s handle %s' % (kind, x.block, slot))
 
 def readonly_interlude(w, rng):
     """a read-only session in which mutators are attempted (all refused); what it shows before its close is what the next session shows"""
